@@ -319,6 +319,40 @@ example : (runT full tinit quietThenSilent).1.d.adj = [] ∧ (runT full tinit qu
     stream ⟨1, 1, 2, 1⟩ (evsOf (runT full tinit quietThenSilent).2) = [true, false] := by decide
 example : ((runT full tinit quietThenSilent.dropLast).1.d.adj.map (·.1)) = [⟨1, 1, 2, 1⟩, ⟨2, 1, 1, 1⟩] := by decide
 
+/-! ## Configuration is an input
+
+`Discovery(link_timeout = N)` / `launch(link_timeout = "N")` and `spanning_tree.launch(no_flood = True)` as parameters of the handlers
+(`Cfg`, `stepOfC`, `tstepOfC`: Model/Discovery.lean Part 5).  The correspondence run drives the real components, started through
+their `launch()` functions with option texts, against these. -/
+
+/-- THE CONFIGURED HANDLERS AT THE DEFAULTS ARE THE HANDLERS ALL THEOREMS ABOVE SPEAK ABOUT (link timeout 10 s, `no_flood` off): for
+every op of a history and of a timer-driven history. -/
+theorem configured_default_is_model (v : Variant) (s : DState) (ts : TState) (choose : Choose) :
+    (∀ op, stepOfC Cfg.default v s choose op = stepOf v s choose op) ∧
+    (∀ op, tstepOfC Cfg.default v ts choose op = tstepOf v ts choose op) :=
+  ⟨stepOfC_default v s choose, tstepOfC_default v ts choose⟩
+
+/-- SWEEP_BOUNDS_AGE FOR EVERY CONFIGURED TIMEOUT, from any state: right after an expiry sweep every link left was in the adjacency
+before and was last probed at most the CONFIGURED link timeout ago — the links of a silent switch are withdrawn ... -/
+theorem configured_sweep_bounds_age (c : Cfg) (v : Variant) (s : DState) (choose : Choose) (o : List Nat) (l : Link) (t : Nat)
+    (h : (l, t) ∈ (stepOfC c v s choose (.sweep o)).1.adj) : (l, t) ∈ s.adj ∧ s.now ≤ t + c.linkTimeout :=
+  sweepC_young c v s choose o l t h
+
+/-- ... AND ONLY THOSE: every LinkEvent a sweep raises is the removal of a link whose last probe is older than the configured timeout
+(a link that still carries probes is never withdrawn by the timer). -/
+theorem configured_sweep_withdraws_only_silent (c : Cfg) (v : Variant) (s : DState) (choose : Choose) (o : List Nat) (a : Bool) (l : Link)
+    (h : (a, l) ∈ (stepOfC c v s choose (.sweep o)).2.events) : a = false ∧ ∃ t, (l, t) ∈ s.adj ∧ t + c.linkTimeout < s.now :=
+  sweepC_events c v s choose o a l h
+
+/-- non-vacuity: link timeout 2 s, `no_flood`: the new switch's ports below OFPP_MAX are blocked (65534 is not touched); a link probed
+2 s ago survives a sweep, 2.125 s ago it is withdrawn -/
+def cfg2 : Cfg := ⟨2000, true⟩
+example : (stepOfC cfg2 full Discovery.init (fun _ => .ok []) (.up 1 [2, 65534, 1])).2.mods = [⟨1, 2, false⟩, ⟨1, 1, false⟩] := by decide
+def st2 : DState := (stepOfC cfg2 full (stepOfC cfg2 full Discovery.init (fun _ => .ok []) (.up 1 [1])).1 (fun _ => .ok []) (.probe ⟨1, 1, 2, 1⟩ [])).1
+example : (stepOfC cfg2 full { st2 with now := st2.now + 2000 } (fun _ => .ok []) (.sweep [])).2.events = [] ∧
+    (stepOfC cfg2 full { st2 with now := st2.now + 2125 } (fun _ => .ok []) (.sweep [])).2.events = [(false, ⟨1, 1, 2, 1⟩)] ∧
+    (stepOf full { st2 with now := st2.now + 2125 } (fun _ => .ok []) (.sweep [])).2.events = [] := by decide
+
 /-! ## Flood bits -/
 
 /-- the statement of FLOOD_PORTS for a variant `v` of the handlers: every connected switch, in the tree or not -/
